@@ -323,3 +323,80 @@ Proof.
   intros [|[|[|n]]] H; try (split; [repeat constructor|reflexivity]).
   exfalso. lia.
 Qed.
+
+(* ---- the tie to the source text (sequence_log_probs, tensor path) ---------------------------------------
+   PV.Gen.C07Src.slp_tensor_body and PV.Gen.C07LensSrc.lens_from_eos_body are regenerated on every run from
+   /repo/src/pydrobert/torch/_decoding.py (`_sequence_log_probs_tensor`, whole body) and _string.py
+   (`_lens_from_eos`, whole body) by harness/py2coq/translate.py, node for node; PV.MiniPy.Interp is the
+   semantics of the translated subset; SrcRun.ext07 gives the torch calls (dim, shape, lt/ge/eq, |, &, +,
+   cumsum, max, masked_fill, unsqueeze, flatten, view, view_as, arange, broadcasting >=, gather, squeeze,
+   sum) the meaning defined in PV.MiniTorch.OpsC07 (N-d tensors over bool / Z / rationals-or-minus-infinity),
+   interprets the call `_lens_from_eos(...)` by running the other translated body, and treats
+   torch.nn.functional.log_softmax as an ORACLE [lsm] (any function; the model receives its values as
+   data, exactly as everywhere in C07).  The theorems below are about those regenerated terms, for EVERY
+   input on the (outer, time, inner) normal form the model uses: hyp (A x T x B), logits (A x T x B x V),
+   dim = 1 (or -2). *)
+From PV Require MiniPy.Syntax MiniPy.Interp MiniTorch.OpsC07 Gen.C07Src Gen.C07LensSrc C07.SrcRun C07.Tie.
+
+(* interpreting the source of _sequence_log_probs_tensor returns exactly the tensor Model.slp_tensor
+   computes (same shape, every entry the same value) - or raises where the model has its error *)
+Theorem c07_source_slp_is_model : forall (lsm : OpsC07.tn OpsC07.xq -> OpsC07.tn OpsC07.xq) logits A T B V eos lp hyp dim,
+  dim = 1%Z \/ dim = (-2)%Z ->
+  0 < V -> OpsC07.shp logits = [A; T; B; V] -> lsm logits = SrcRun.lp_tensor A T B V lp -> Tie.wf_slp A T lp hyp ->
+  match slp_tensor OpsC07.xadd OpsC07.xzero (Z.of_nat V) eos T B lp hyp with
+  | Some out => exists st,
+      Interp.run (SrcRun.ext07 lsm) C07Src.slp_tensor_body (SrcRun.slp_vars logits (SrcRun.hyp_tensor A T B hyp) dim eos)
+      = Interp.Ok (OpsC07.enc_f (SrcRun.out_tensor A B out)) st
+  | None => exists st,
+      Interp.run (SrcRun.ext07 lsm) C07Src.slp_tensor_body (SrcRun.slp_vars logits (SrcRun.hyp_tensor A T B hyp) dim eos)
+      = Interp.Exc SrcRun.index_error st
+  end.
+Proof. exact Tie.slp_tensor_tie_dims. Qed.
+Print Assumptions c07_source_slp_is_model.
+
+(* eos set and a zero-length time dimension: the source raises (torch's `max` over an empty dimension:
+   IndexError in eager mode - TorchScript, which the tie does not model, reports it as RuntimeError) *)
+Theorem c07_source_slp_raises : forall (lsm : OpsC07.tn OpsC07.xq -> OpsC07.tn OpsC07.xq) logits A B V e lp hyp,
+  OpsC07.shp logits = [A; 0; B; V] -> lsm logits = SrcRun.lp_tensor A 0 B V lp ->
+  exists st,
+    Interp.run (SrcRun.ext07 lsm) C07Src.slp_tensor_body (SrcRun.slp_vars logits (SrcRun.hyp_tensor A 0 B hyp) 1%Z (Some e))
+    = Interp.Exc SrcRun.index_error st.
+Proof. exact Tie.slp_tie_raises. Qed.
+Print Assumptions c07_source_slp_raises.
+
+(* the source of _lens_from_eos alone: every (outer, inner) entry of what it returns is Model.lens_from_eos
+   of that fibre - by c07_lens_from_eos the position of the first eos, T when there is none *)
+Theorem c07_source_lens_is_model : forall (lsm : OpsC07.tn OpsC07.xq -> OpsC07.tn OpsC07.xq) A T B hyp e, T <> 0 ->
+  exists st,
+    Interp.run (SrcRun.ext07_ops lsm) C07LensSrc.lens_from_eos_body (SrcRun.lens_vars (SrcRun.hyp_tensor A T B hyp) e 1%Z)
+    = Interp.Ok (OpsC07.enc_i (OpsC07.mkTn [A; B] (OpsC07.tab2 A B (fun a b =>
+        Z.of_nat (lens_from_eos e (map (fun t => SrcRun.hyp_at hyp a t b) (seq 0 T))))))) st.
+Proof. exact Tie.lens_tie. Qed.
+Print Assumptions c07_source_lens_is_model.
+
+(* composed with c07_slp_tensor_correct: a statement purely about the interpreted source - at every
+   (outer, inner) position the returned tensor holds the sum of the log-softmax values of the chosen tokens
+   up to and including the first end-of-sequence, out-of-vocabulary positions skipped *)
+Theorem c07_source_slp_eq_spec : forall (lsm : OpsC07.tn OpsC07.xq -> OpsC07.tn OpsC07.xq) logits A T B V eos lp hyp dim,
+  dim = 1%Z \/ dim = (-2)%Z ->
+  0 < V -> OpsC07.shp logits = [A; T; B; V] -> lsm logits = SrcRun.lp_tensor A T B V lp -> Tie.wf_slp A T lp hyp ->
+  eos = None \/ 0 < T ->
+  exists st,
+    Interp.run (SrcRun.ext07 lsm) C07Src.slp_tensor_body (SrcRun.slp_vars logits (SrcRun.hyp_tensor A T B hyp) dim eos)
+    = Interp.Ok (OpsC07.enc_f (SrcRun.out_tensor A B
+        (map2 (fun lp_a hyp_a =>
+                 map (fun b => spec_slp OpsC07.xadd OpsC07.xzero (Z.of_nat V) eos (column [] b lp_a) (column 0%Z b hyp_a))
+                     (seq 0 B)) lp hyp))) st.
+Proof. exact Tie.source_slp_eq_spec. Qed.
+Print Assumptions c07_source_slp_eq_spec.
+
+(* non-vacuity: the interpreted source on a concrete 1 x 3 x 2 case (V = 2, eos = 0: an out-of-vocabulary
+   token, an eos in the middle), with and without eos, and the zero-length error; values are the model's *)
+Example c07_source_slp_nonvacuous :
+  let lp := [[[[-3;-5];[-1;-2]];[[-7;-11];[-4;-6]];[[-13;-17];[-8;-9]]]]%Z in
+  let hyp := [[[1;0];[5;1];[0;1]]]%Z in
+  SrcRun.src_slp 2 (Some 0%Z) 3 2 lp hyp = Some (slp_tensor Z.add 0%Z 2 (Some 0%Z) 3 2 lp hyp) /\
+  SrcRun.src_slp 2 (Some 0%Z) 3 2 lp hyp = Some (Some [[-18; -1]]%Z) /\
+  SrcRun.src_slp 2 None 3 2 lp hyp = Some (Some [[-18; -16]]%Z) /\
+  SrcRun.src_slp 2 (Some 1%Z) 0 2 [[]] [[]] = Some None.
+Proof. cbv zeta. repeat split; vm_compute; reflexivity. Qed.
